@@ -36,6 +36,10 @@ CHECKS.update(
     C20=dict(text="Symbolic execution of the real scale.py (weights_from_nominal_values, from_nominal_values, from_grad_jac, scale_symmetric, from_equilibrated_kkt, create_scaling dispatch) on an exponent model of frexp/ldexp incl. numpy's truncating float->int stores; the [1,2) / [1,4) normalisation ranges and integrality of the weights proved by z3 for all magnitudes in the stated window; equilibration loop unwound 3 (thorough 4).", note="Exact reals inside the exponent window (magnitudes 0 or in [2^-W0,2^W0]); frexp arguments assumed inside the window (counted); loop iterations beyond the unwinding are reported as aborted paths, not as success; one listed known finding (columns with sum < 1e-10).", ref="DESIGN.md §6 C20"),
 )
 
+CHECKS.update(
+    C19=dict(text="Symbolic execution of the real deriv_check / DerivError / Solver._deriv_check over arbitrary function values at x and x+eps*e_i and arbitrary derivative entries (dense gradient, sparse COO/CSR/CSC Jacobian/Hessian, m,n<=2; thorough <=3): pass => all entries within the checker's tolerance; all within deriv_tol => pass; DerivError names exactly the wrong rows of the first wrong column; the three differenced function/derivative pairs of Solver._deriv_check; a K=2 solve (L1 oracle) with the check enabled starts from the unchanged point.", note="Exact reals (finite differences exact; cancellation outside); 'correct derivative' := |d-fd| <= deriv_tol (Taylor bound assumed, not re-proved); checker's tolerance := atol + 1e-5|fd| (numpy.allclose).", ref="DESIGN.md §6 C19"),
+)
+
 NOT_APPLICABLE = {
     "C03": "liveness/convergence of hundreds of floating-point Newton iterations with data-dependent trip count: no bounded symbolic encoding can decide it (DESIGN.md §7)",
 }
